@@ -108,6 +108,60 @@ Theorem C13_predecessors_reflect :
 Proof. exact predecessors_reflect. Qed.
 Print Assumptions C13_predecessors_reflect.
 
+(* Registries WITHOUT the Referrers API (referrers tag schema): what updateReferrersIndex writes
+   when a manifest with a subject is pushed is what Predecessors reads back.  In every registry
+   state of the invariant, whether the referrers tag of the subject is absent or points to an
+   index written before: adding referrer r succeeds, leaves the tag pointing to the new index
+   (old referrers, deduplicated, then r; the old index deleted unless SkipReferrersGC) and
+   Predecessors over the tag schema then lists exactly those.  For every profile that answers a
+   tag with a digest header or a Content-Length (the known finding otherwise). *)
+Theorem C13_tag_schema_add_then_listed :
+  forall (H : str -> str) (parse_mt : str -> option str) (subject_of : str -> option (option desc))
+         (main other : str) (user_mts : list str) (limit : N) (skip_gc : bool)
+         (index_of : str -> option (list desc)) (p : profile),
+    (forall c, valid_digest (H c) = true) ->
+    (forall l, index_of (gen_index l) = Some l) ->
+    (forall l, subject_of (gen_index l) = Some None) ->
+    parse_mt mt_index = Some mt_index ->
+    forall g n rst subj old r,
+      inv H parse_mt subject_of limit p g ->
+      rst_ok p rst ->
+      valid_digest (d_dg subj) = true ->
+      let tag := ref_tag (d_dg subj) in
+      resolve_ref main tag = Some tag -> valid_digest tag = false ->
+      p_clen p = true \/ p_dighdr p = true ->
+      index_state g tag old ->
+      let l := match old with Some (_, l) => l | None => [] end in
+      let upd := clean_refs [] l ++ [r] in
+      existsb (RemoteClient.desc_eqb r) (clean_refs [] l) = false ->
+      len (gen_index upd) <= limit ->
+      skip_gc = true \/ (forall od l0, old = Some (od, l0) -> od <> H (gen_index upd)) ->
+      exists g' n' t,
+        update_referrers_index H parse_mt main user_mts limit skip_gc index_of (reg * N)
+                               (cexch H subject_of main other p None) (g, n) rst subj (RAdd r)
+        = ((g', n'), rst, t, ROk) /\
+        inv H parse_mt subject_of limit p g' /\
+        index_state g' tag (Some (H (gen_index upd), upd)) /\
+        exists n'' t',
+          tag_schema_referrers H parse_mt main user_mts limit index_of (reg * N)
+                               (cexch H subject_of main other p None) (g', n') subj
+          = ((g', n''), t', RDescs (clean_refs [] upd)).
+Proof. exact tag_schema_add_then_listed. Qed.
+Print Assumptions C13_tag_schema_add_then_listed.
+
+(* ... end to end on a concrete registry without the API: Push of a manifest with a subject makes
+   Predecessors list it and the referrers tag resolve to the generated index (the JSON the
+   client writes is the last conjunct); Delete removes both again *)
+Example C13_tag_schema_example :
+  map snd (snd (run_history toy_H (fun s => Some s) ts_subject (b "app") (b "src") [] w_limit false ts_index_of
+                            ts_profile None [] RSUnknown ts_ops))
+  = [ROk; RDescs []; ROk; RDescs [ts_d1];
+     RDesc (mkDesc mt_index (toy_H (gen_index [ts_d1])) (len (gen_index [ts_d1])));
+     ROk; RDescs []; RErr ENotFound] /\
+  ts_index_of (gen_index [ts_d1]) = Some [ts_d1] /\ ts_subject (gen_index [ts_d1]) = Some None /\
+  gen_index [ts_d1] = b "{""schemaVersion"":2,""mediaType"":""application/vnd.oci.image.index.v1+json"",""manifests"":[{""mediaType"":""application/vnd.oci.image.manifest.v1+json"",""digest"":""sha256:7d317b0000000000000000000000000000000000000000000000000000000000"",""size"":3}]}".
+Proof. exact tag_schema_example. Qed.
+
 (* Composition with C15 (Model/Paging.v): in every state the registry model reaches from
    the empty registry by any request sequence the manifest digests are distinct and
    non-empty, hence against a registry that PAGINATES the Referrers API in any legal way
